@@ -98,12 +98,12 @@ pub fn any_probe<M: Model>() -> (u16, u16) {
 }
 
 pub fn assert_framing(c: &Core) {
-    assert!(!c.f_nowr, "[C08] pixel data without memory-write-start");
-    assert!(!c.f_plen, "[C08] address command without exactly four parameter bytes");
-    assert!(!c.f_sgt, "[C08] window start > end");
-    assert!(!c.f_beyond, "[C08][C02] window end / write outside the controller framebuffer");
-    assert!(!c.f_order, "[C08] group not in order CASET, RASET, RAMWR, pixels");
-    assert!(!c.f_foreign, "[C08] non-drawing command inside a drawing call");
+    crate::indep! { assert!(!c.f_nowr, "[C08] pixel data without memory-write-start"); }
+    crate::indep! { assert!(!c.f_plen, "[C08] address command without exactly four parameter bytes"); }
+    crate::indep! { assert!(!c.f_sgt, "[C08] window start > end"); }
+    crate::indep! { assert!(!c.f_beyond, "[C08][C02] window end / write outside the controller framebuffer"); }
+    crate::indep! { assert!(!c.f_order, "[C08] group not in order CASET, RASET, RAMWR, pixels"); }
+    crate::indep! { assert!(!c.f_foreign, "[C08] non-drawing command inside a drawing call"); }
 }
 
 /// set_pixel: every configuration accepted by init, every orientation, every in-bounds
@@ -129,7 +129,7 @@ where
     let (ctl, _, _) = d.release();
     let c = &ctl.c;
     assert_framing(c);
-    assert!(!c.f_overrun, "[C08] more pixel data than the window holds");
+    crate::indep! { assert!(!c.f_overrun, "[C08] more pixel data than the window holds"); }
     let e = cfg.exp(x, y);
     if e == probe {
         assert!(c.probe_writes == 1 && c.probe_val == col.wire(), "[C01][C05][C19] pixel lands at the oriented, offset cell with its colour");
@@ -137,7 +137,7 @@ where
         assert!(c.probe_writes == 0, "[C01] no other cell changes");
     }
     assert!(c.pixels == 1, "[C01] exactly one pixel written");
-    assert!(c.ramwr_count == 1 && c.caset_count == 1 && c.raset_count == 1, "[C20] one window set-up");
+    crate::indep! { assert!(c.ramwr_count == 1 && c.caset_count == 1 && c.raset_count == 1, "[C20] one window set-up"); }
     kani::cover!(e == probe && cfg.o.mirrored, "cover: hit, mirrored");
     kani::cover!(e == probe && !cfg.o.mirrored && cfg.w == M::FRAMEBUFFER_SIZE.0, "cover: hit, full width");
 }
@@ -231,7 +231,7 @@ where
     let (ctl, _, _) = d.release();
     let c = &ctl.c;
     assert_framing(c);
-    assert!(!c.f_overrun, "[C08] more pixel data than the window holds");
+    crate::indep! { assert!(!c.f_overrun, "[C08] more pixel data than the window holds"); }
     assert!(c.pixels == area, "[C01] all colours written");
     match cfg.inv(probe) {
         Some((x, y)) if x >= sx && x <= ex && y >= sy && y <= ey => {
@@ -278,9 +278,9 @@ where
     let (ctl, _, _) = d.release();
     let c = &ctl.c;
     assert_framing(c);
-    assert!(!c.f_overrun, "[C08] more pixel data than the window holds");
+    crate::indep! { assert!(!c.f_overrun, "[C08] more pixel data than the window holds"); }
     let nonempty = !rect.intersection(&bb).is_zero_sized();
-    assert!(c.ramwr_count == nonempty as u32 && c.caset_count == nonempty as u32 && c.raset_count == nonempty as u32, "[C20] exactly one window set-up per non-empty fill, none otherwise");
+    crate::indep! { assert!(c.ramwr_count == nonempty as u32 && c.caset_count == nonempty as u32 && c.raset_count == nonempty as u32, "[C20] exactly one window set-up per non-empty fill, none otherwise"); }
     match cfg.inv(probe) {
         Some((x, y)) if rect_contains(&rect, x, y) => {
             assert!(c.probe_writes == 1 && c.probe_val == col.wire(), "[C01] every in-bounds point of the rectangle is filled");
@@ -306,8 +306,8 @@ where
     let (ctl, _, _) = d.release();
     let c = &ctl.c;
     assert_framing(c);
-    assert!(!c.f_overrun, "[C08] more pixel data than the window holds");
-    assert!(c.ramwr_count == 1 && c.caset_count == 1 && c.raset_count == 1, "[C20] one window set-up per clear");
+    crate::indep! { assert!(!c.f_overrun, "[C08] more pixel data than the window holds"); }
+    crate::indep! { assert!(c.ramwr_count == 1 && c.caset_count == 1 && c.raset_count == 1, "[C20] one window set-up per clear"); }
     assert!(c.pixels == cfg.w as u32 * cfg.h as u32, "[C01] clear sends w*h pixels");
     match cfg.inv(probe) {
         Some(_) => assert!(c.probe_writes == 1 && c.probe_val == col.wire(), "[C01] clear paints every panel cell"),
@@ -341,9 +341,9 @@ where
     let (ctl, _, _) = d.release();
     let c = &ctl.c;
     assert_framing(c);
-    assert!(!c.f_overrun, "[C08] more pixel data than the window holds");
+    crate::indep! { assert!(!c.f_overrun, "[C08] more pixel data than the window holds"); }
     let nonempty = !rect.intersection(&bb).is_zero_sized();
-    assert!(c.ramwr_count == nonempty as u32 && c.caset_count == nonempty as u32, "[C20] exactly one window set-up per non-empty fill, none otherwise");
+    crate::indep! { assert!(c.ramwr_count == nonempty as u32 && c.caset_count == nonempty as u32, "[C20] exactly one window set-up per non-empty fill, none otherwise"); }
     match cfg.inv(probe) {
         Some((x, y)) if rect_contains(&rect, x, y) => {
             let k = ((y as i32 - ry) as u32) * rw + (x as i32 - rx) as u32;
@@ -384,7 +384,7 @@ where
     let (ctl, _, _) = d.release();
     let c = &ctl.c;
     assert_framing(c);
-    assert!(!c.f_overrun, "[C08] more pixel data than the window holds");
+    crate::indep! { assert!(!c.f_overrun, "[C08] more pixel data than the window holds"); }
     match cfg.inv(probe) {
         Some((x, y)) if rect_contains(&rect, x, y) => {
             let k = ((y as i64 - ry as i64) as u64) * rw as u64 + (x as i64 - rx as i64) as u64;
